@@ -188,6 +188,7 @@ fn main() {
         "c18-trace" => c18::trace_child(),
         "c18-trace-fmt" => c18::trace_fmt_child(),
         "c18-corpus" => c18::corpus_child(tier),
+        "c16-nofmt" => c16::nofmt_child(tier),
         "C19" => c19::run(tier),
         "c19-child" => c19::child_main(tier.parse().unwrap(), &args[3], args.get(4).map(|s| s.as_str())),
         "C20" => c20::run(tier),
